@@ -213,14 +213,14 @@ func TestProp_C01_concurrent(t *testing.T) {
 	})
 }
 
-const ruleLegacy = "legacy storage: a generated straight chain of 0..2300 headers written as version-0 header files (version byte 0, 1000 x 80-byte headers per file starting with genesis; last file partial, full or exactly 1000; optionally a trailing header that does not link) or no files at all (empty storage); oracle: Load (migration) reports the chain's tip/height/accumulated work and the chain at every sampled height, accepts the next headers, and a Save followed by a Load in a fresh repository reports the same; non-trivial = chain crossing a 1000-header file boundary; distinct = (length class, boundary class)"
+const ruleLegacy = "legacy storage: a generated straight chain of 0..2300 headers (or 9999 / 10000 / 10001 / 12050, where the migrating Load also prunes) written as version-0 header files (version byte 0, 1000 x 80-byte headers per file starting with genesis; last file partial, full or exactly 1000; optionally a trailing header that does not link) or no files at all (empty storage); oracle: Load (migration) reports the chain's tip/height/accumulated work and the chain at every sampled height, accepts the next headers, and a Save followed by a Load in a fresh repository reports the same; non-trivial = chain crossing a 1000-header file boundary; distinct = (length class, boundary class)"
 
 func TestProp_C11_legacy(t *testing.T) {
 	col := evid.For("C11", "legacy", ruleLegacy)
 	rapid.Check(t, func(t *rapid.T) {
 		k := col.NewCase()
 		ctx := vt.Ctx()
-		n := rapid.SampledFrom([]int{0, 0, 1, 2, 5, 37, 998, 999, 1000, 1001, 1999, 2000, 2001, 2300}).Draw(t, "length")
+		n := rapid.SampledFrom([]int{0, 0, 1, 2, 5, 37, 998, 999, 1000, 1001, 1999, 2000, 2001, 2300, 2300, 9999, 10000, 10001, 12050}).Draw(t, "length")
 		if rapid.Bool().Draw(t, "randomLength") {
 			n = rapid.IntRange(0, 2300).Draw(t, "n")
 		}
@@ -260,7 +260,7 @@ func TestProp_C11_legacy(t *testing.T) {
 			if r.AccumulatedWork().Cmp(w) != 0 {
 				t.Fatalf("%s: accumulated work %s, expected %s", how, r.AccumulatedWork().Text(16), w.Text(16))
 			}
-			for _, h := range []int{0, 1, 2, 998, 999, 1000, 1001, 1999, 2000, 2001, upTo - 1, upTo, upTo / 2, upTo / 3} {
+			for _, h := range []int{0, 1, 2, 998, 999, 1000, 1001, 1999, 2000, 2001, 9999, 10000, upTo - 10001, upTo - 10000, upTo - 9999, upTo - 1, upTo, upTo / 2, upTo / 3} {
 				if h < 0 || h > upTo {
 					continue
 				}
